@@ -17,8 +17,10 @@ def sh(cmd, **kw):
 
 
 def main():
-    root = sys.argv[1]
-    only = set(sys.argv[2:])
+    args = [a for a in sys.argv[1:] if not a.startswith('--')]
+    refresh = '--refresh' in sys.argv      # keep the verification result of an existing meta.json, only re-run the checks
+    root = args[0]
+    only = set(args[1:])
     props = {}
     for l in open(os.path.join(VERIF, 'properties.jsonl')):
         d = json.loads(l)
@@ -46,9 +48,18 @@ def main():
             if os.path.exists(os.path.join(src, 'notes.md')):
                 shutil.copy(os.path.join(src, 'notes.md'), os.path.join(dst, 'notes.md'))
             # 2. verify
-            r = sh('%s/selftest/verify_seed.sh %s %s' % (VERIF, dst, sid))
-            verdict = (r.stdout.strip().splitlines() or ['?'])[-1]
-            confirmed = 'CONFIRMED' in verdict and 'NOT CONFIRMED' not in verdict
+            old_meta = None
+            if refresh and os.path.exists(os.path.join(dst, 'meta.json')):
+                old_meta = json.load(open(os.path.join(dst, 'meta.json')))
+            if old_meta and old_meta.get('confirmed'):
+                verdict = [w for w in old_meta['what_i_ran'] if 'verify_seed' in w][0].split('-> ', 1)[-1]
+                confirmed = True
+                head_v = old_meta.get('verified_at_repo_head', head)
+            else:
+                r = sh('%s/selftest/verify_seed.sh %s %s' % (VERIF, dst, sid))
+                verdict = (r.stdout.strip().splitlines() or ['?'])[-1]
+                confirmed = 'CONFIRMED' in verdict and 'NOT CONFIRMED' not in verdict
+                head_v = head
             # 3. checks
             S = tempfile.mkdtemp(prefix='asd-pkg.')
             sh('rsync -a --exclude target --exclude .git /repo/ %s/' % S)
@@ -74,7 +85,8 @@ def main():
                 'patch_rebased_onto_later_fix_commits': rebased,
                 'needs_to_manifest': needs,
                 'demonstration': 'demo.rs: an integration test (tests/demo.rs of the crate named in notes.md) that passes on the unchanged tree and fails with the patch',
-                'verified_at_repo_head': head,
+                'verified_at_repo_head': head_v,
+                'checks_run_at_repo_head': head,
                 'what_i_ran': ['selftest/verify_seed.sh seeded/%s %s  -> %s' % (sid, sid, verdict),
                                'for every registered check: ASD_REPO=<scratch copy with patch> ./check <ID>'],
                 'confirmed': confirmed,
